@@ -265,35 +265,47 @@ func VerifC13Bcast() {
 			vrt.Assume(k < len(pool))
 			sigs[i] = pool[k]
 		}
+		before := mem.delivered
 		_, _, err := mem.c.srv.handleMessage(ctx, vPeerID[0], &pb.BCastMessage{Id: id, Message: vAny(tag), Signatures: sigs})
 		if err == nil {
-			vrt.Assert("delivery calls the callback exactly once with the delivered id and payload", mem.delivered == 1 && mem.gotID == id && mem.gotTag == tag)
+			vrt.Assert("delivery calls the callback exactly once with the delivered id and payload", mem.delivered == before+1 && mem.gotID == id && mem.gotTag == tag)
 		} else {
-			vrt.Assert("a rejected message is not delivered", mem.delivered == 0)
+			vrt.Assert("a rejected message is not delivered", mem.delivered == before)
 		}
 		return err == nil, id, tag
+	}
+	signedBy := func(mi int, id string, tag byte) bool {
+		signed := false
+		for _, x := range recs[mi] {
+			if x.ok && x.id == id && x.tag == tag {
+				signed = true
+			}
+		}
+		return signed
 	}
 	ok1, id1, tag1 := deliver("d1", m1)
 	ok2, id2, tag2 := deliver("d2", m2)
 	if ok1 {
 		// member 1 delivered: member 2 (this session) must have signed exactly that payload for that id
-		signed := false
-		for _, x := range recs[1] {
-			if x.ok && x.id == id1 && x.tag == tag1 {
-				signed = true
-			}
-		}
-		vrt.Assert("a payload is delivered only if every other honest member signed exactly it for that id in this session", signed)
+		vrt.Assert("a payload is delivered only if every other honest member signed exactly it for that id in this session", signedBy(1, id1, tag1))
 		vrt.Reach("member 1 delivered")
 	}
 	if ok2 {
-		signed := false
-		for _, x := range recs[0] {
-			if x.ok && x.id == id2 && x.tag == tag2 {
-				signed = true
+		vrt.Assert("a payload is delivered only if every other honest member signed exactly it for that id in this session", signedBy(0, id2, tag2))
+	}
+	if vrt.Param("two") == 1 {
+		// a second message to member 1 (e.g. a replay of the first one's signature list around another payload or id)
+		ok3, id3, tag3 := deliver("d3", m1)
+		if ok3 {
+			vrt.Assert("a second payload is delivered only if every other honest member signed exactly it for that id in this session", signedBy(1, id3, tag3))
+			if ok1 && id3 == id1 {
+				vrt.Assert("one member never delivers two different payloads for the same sender and message id", tag3 == tag1)
+				vrt.Reach("member 1 delivered twice")
+			}
+			if ok2 && id3 == id2 {
+				vrt.Assert("two honest members never deliver different payloads for the same sender and message id", tag3 == tag2)
 			}
 		}
-		vrt.Assert("a payload is delivered only if every other honest member signed exactly it for that id in this session", signed)
 	}
 	if ok1 && ok2 && id1 == id2 {
 		vrt.Assert("two honest members never deliver different payloads for the same sender and message id", tag1 == tag2)
